@@ -133,7 +133,7 @@ Qed.
 Lemma pick_spec : forall targets l m w i t w',
   pick targets l m w = Ok (Chosen i t w') <-> zindex m l = Some i /\ nth_error targets i = Some t /\ w = w'.
 Proof.
-  intros. unfold pick. destruct (zindex m l) as [k|].
+  intros. unfold pick, pick_at. destruct (zindex m l) as [k|].
   - destruct (nth_error targets k) as [u|] eqn:E.
     + split.
       * intro H. inversion H; subst. auto.
@@ -143,48 +143,323 @@ Proof.
 Qed.
 
 Lemma pick_not_unknown : forall targets l m w, pick targets l m w <> Ok Unknown.
-Proof. intros. unfold pick. destruct (zindex m l); [destruct (nth_error targets n)|]; discriminate. Qed.
+Proof. intros. unfold pick, pick_at. destruct (zindex m l); [destruct (nth_error targets n)|]; discriminate. Qed.
 Lemma pick_not_ambiguous : forall targets l m w c, pick targets l m w <> Ok (Ambiguous c).
-Proof. intros. unfold pick. destruct (zindex m l); [destruct (nth_error targets n)|]; discriminate. Qed.
-
-Definition keys_of (sc levels : list Z) : list Z := map tb_key (combine sc levels).
+Proof. intros. unfold pick, pick_at. destruct (zindex m l); [destruct (nth_error targets n)|]; discriminate. Qed.
 
 Lemma ltb_count : forall m l, (1 <? zcount m l)%nat = true <-> shared l m.
 Proof. intros. rewrite Nat.ltb_lt. apply zcount_shared. Qed.
+
+Lemma zindex_lt : forall m l i, zindex m l = Some i -> (i < length l)%nat.
+Proof.
+  intros m l i H. apply zindex_spec in H. destruct H as [H _]. apply nth_error_Some. congruence.
+Qed.
+
+Lemma pick_total : forall targets l m w, In m l -> length l = length targets ->
+  exists i t, pick targets l m w = Ok (Chosen i t w).
+Proof.
+  intros targets l m w Hin Hl. unfold pick, pick_at. destruct (zindex_in m l Hin) as [i Hi]. rewrite Hi.
+  apply zindex_lt in Hi. destruct (nth_error targets i) as [t|] eqn:E; [eauto|].
+  apply nth_error_None in E. lia.
+Qed.
+
+(* ---------- the tie-break list holds -inf (None) for the non-competitors.  max / count / index
+   on it agree with the Z versions after replacing None by any number below all the keys. *)
+Definition emb (f : Z) (o : option Z) : Z := match o with Some k => k | None => f end.
+Definition above (f : Z) (l : list (option Z)) : Prop := forall k, In (Some k) l -> f < k.
+
+Lemma oltb_emb : forall f a b, above f [a; b] -> oltb a b = (emb f a <? emb f b).
+Proof.
+  intros f a b H. destruct a as [x|], b as [y|]; cbn.
+  - reflexivity.
+  - assert (f < x) by (apply H; left; reflexivity). symmetry. apply Z.ltb_ge. lia.
+  - assert (f < y) by (apply H; right; left; reflexivity). symmetry. apply Z.ltb_lt. lia.
+  - symmetry. apply Z.ltb_irrefl.
+Qed.
+
+Lemma oeqb_emb : forall f a b, above f [a; b] -> oeqb a b = (emb f a =? emb f b).
+Proof.
+  intros f a b H. destruct a as [x|], b as [y|]; cbn.
+  - reflexivity.
+  - assert (f < x) by (apply H; left; reflexivity). symmetry. apply Z.eqb_neq. lia.
+  - assert (f < y) by (apply H; right; left; reflexivity). symmetry. apply Z.eqb_neq. lia.
+  - symmetry. apply Z.eqb_refl.
+Qed.
+
+Lemma above_sub : forall f l l', above f l -> (forall x, In x l' -> In x l) -> above f l'.
+Proof. intros f l l' H S k Hk. apply H. apply S. exact Hk. Qed.
+
+Lemma omax_in : forall l m, omax l = Some m -> In m l.
+Proof.
+  induction l as [|x r IH]; intros m H; cbn in H; [discriminate|].
+  destruct (omax r) as [m'|] eqn:E.
+  - inversion H; subst. destruct (oltb m' x); [left; reflexivity | right; apply IH; reflexivity].
+  - inversion H; subst. left. reflexivity.
+Qed.
+
+Lemma omax_emb : forall f l, above f l -> zmax (map (emb f) l) = option_map (emb f) (omax l).
+Proof.
+  intros f. induction l as [|x r IH]; intros H; cbn; [reflexivity|].
+  rewrite IH by (eapply above_sub; [exact H | intros; right; assumption]).
+  destruct (omax r) as [m|] eqn:E; cbn; [|reflexivity].
+  rewrite (oltb_emb f m x).
+  - destruct (emb f m <? emb f x); reflexivity.
+  - eapply above_sub; [exact H|]. intros y [<-|[<-|[]]]; [right; apply omax_in; exact E | left; reflexivity].
+Qed.
+
+Lemma ocount_emb : forall f m l, above f (m :: l) -> ocount m l = zcount (emb f m) (map (emb f) l).
+Proof.
+  intros f m. induction l as [|y r IH]; intros H; cbn; [reflexivity|].
+  rewrite (oeqb_emb f y m) by (eapply above_sub; [exact H|]; intros z [<-|[<-|[]]]; [right; left; reflexivity | left; reflexivity]).
+  rewrite IH by (eapply above_sub; [exact H|]; intros z [<-|Hz]; [left; reflexivity | right; right; exact Hz]).
+  reflexivity.
+Qed.
+
+Lemma oindex_emb : forall f m l, above f (m :: l) -> oindex m l = zindex (emb f m) (map (emb f) l).
+Proof.
+  intros f m. induction l as [|y r IH]; intros H; cbn; [reflexivity|].
+  rewrite (oeqb_emb f y m) by (eapply above_sub; [exact H|]; intros z [<-|[<-|[]]]; [right; left; reflexivity | left; reflexivity]).
+  rewrite IH by (eapply above_sub; [exact H|]; intros z [<-|Hz]; [left; reflexivity | right; right; exact Hz]).
+  reflexivity.
+Qed.
+
+Lemma exists_floor : forall l, exists f, above f l.
+Proof.
+  induction l as [|x r [f Hf]].
+  - exists 0. intros k [].
+  - destruct x as [k|].
+    + exists (Z.min f (k - 1)). intros k' [E|Hk]; [inversion E; lia | specialize (Hf k' Hk); lia].
+    + exists f. intros k' [E|Hk]; [discriminate | auto].
+Qed.
+
+(* the tie-break on a Z list, and its three outcomes *)
+Definition tiebreakZ (targets cands : list str) (keys : list Z) : res decision :=
+  match zmax keys with
+  | None => Crash (s_ "ValueError")
+  | Some m2 => if (1 <? zcount m2 keys)%nat then Ok (Ambiguous cands) else pick targets keys m2 true
+  end.
+
+Lemma tiebreak_emb : forall f targets cands keys, above f keys ->
+  tiebreak targets cands keys = tiebreakZ targets cands (map (emb f) keys).
+Proof.
+  intros f targets cands keys H. unfold tiebreak, tiebreakZ. rewrite (omax_emb f keys H).
+  destruct (omax keys) as [m2|] eqn:E; cbn [option_map]; [|reflexivity].
+  assert (above f (m2 :: keys)) as H2.
+  { eapply above_sub; [exact H|]. intros x [<-|Hx]; [apply omax_in; exact E | exact Hx]. }
+  rewrite (ocount_emb f m2 keys H2), (oindex_emb f m2 keys H2). reflexivity.
+Qed.
+
+Lemma tiebreakZ_chosen : forall targets cands keys i t w,
+  tiebreakZ targets cands keys = Ok (Chosen i t w) <->
+  w = true /\ nth_error targets i = Some t /\ exists k, umax keys i k.
+Proof.
+  intros. unfold tiebreakZ. destruct (zmax keys) as [m2|] eqn:E.
+  - apply zmax_spec in E. destruct (1 <? zcount m2 keys)%nat eqn:Ec.
+    + apply ltb_count in Ec. split; [discriminate|].
+      intros [_ [_ [k Hu]]]. apply umax_props in Hu. destruct Hu as [Hu [Hns _]].
+      assert (k = m2) by (eapply is_max_unique; eauto). subst. contradiction.
+    + assert (~ shared keys m2) as Hns by (intro X; apply ltb_count in X; congruence).
+      rewrite pick_spec. split.
+      * intros [H1 [H2 H3]]. split; [auto|]. split; [exact H2|]. exists m2.
+        destruct (umax_of_unique keys m2 E Hns) as [i' [Hi' Hu]]. rewrite H1 in Hi'. inversion Hi'; subst. exact Hu.
+      * intros [-> [Ht [k Hu]]]. apply umax_props in Hu. destruct Hu as [Hu [_ Hz]].
+        assert (k = m2) by (eapply is_max_unique; eauto). subst. auto.
+  - split; [discriminate|]. intros [_ [_ [k [Hu _]]]]. apply zmax_none in E. subst. destruct i; discriminate.
+Qed.
+
+Lemma tiebreakZ_ambiguous : forall targets cands keys c,
+  tiebreakZ targets cands keys = Ok (Ambiguous c) <->
+  c = cands /\ exists k, is_max keys k /\ shared keys k.
+Proof.
+  intros. unfold tiebreakZ. destruct (zmax keys) as [m2|] eqn:E.
+  - apply zmax_spec in E. destruct (1 <? zcount m2 keys)%nat eqn:Ec.
+    + apply ltb_count in Ec. split.
+      * intro H. inversion H; subst. eauto.
+      * intros [-> _]. reflexivity.
+    + assert (~ shared keys m2) as Hns by (intro X; apply ltb_count in X; congruence).
+      split.
+      * intro H. exfalso. eapply pick_not_ambiguous; exact H.
+      * intros [_ [k [Hk Hs]]]. assert (k = m2) by (eapply is_max_unique; eauto). subst. contradiction.
+  - split; [discriminate|]. intros [_ [k [[Hk _] _]]]. apply zmax_none in E. subst. destruct Hk.
+Qed.
+
+Lemma tiebreakZ_not_unknown : forall targets cands keys, tiebreakZ targets cands keys <> Ok Unknown.
+Proof.
+  intros. unfold tiebreakZ. destruct (zmax keys); [|discriminate].
+  destruct (1 <? zcount z keys)%nat; [discriminate | apply pick_not_unknown].
+Qed.
+
+Lemma tiebreakZ_total : forall targets cands keys, keys <> [] -> length keys = length targets ->
+  exists d, tiebreakZ targets cands keys = Ok d.
+Proof.
+  intros targets cands keys Hne Hl. unfold tiebreakZ. destruct (zmax keys) as [m2|] eqn:E.
+  - destruct (1 <? zcount m2 keys)%nat; [eauto|]. apply zmax_spec in E.
+    destruct (pick_total targets keys m2 true) as [i [t H]]; [apply E | exact Hl | rewrite H; eauto].
+  - apply zmax_none in E. contradiction.
+Qed.
+
+(* ---------- the tie-break list, position by position *)
+Definition keys_of (sc levels : list Z) (m : Z) : list (option Z) := map (tb_key m) (combine sc levels).
+
+Lemma nth_keys : forall m sc levels j o,
+  nth_error (keys_of sc levels m) j = Some o <->
+  exists a e, nth_error sc j = Some a /\ nth_error levels j = Some e /\
+              o = if a =? m then Some (100 * a - e) else None.
+Proof.
+  unfold keys_of. intros m. induction sc as [|a sc IH]; intros levels j o.
+  - cbn. split; [destruct j; discriminate | intros [a [e [H _]]]; destruct j; discriminate].
+  - destruct levels as [|e levels].
+    + cbn. split; [destruct j; discriminate | intros [a' [e' [_ [H _]]]]; destruct j; discriminate].
+    + destruct j as [|j]; cbn [combine map nth_error].
+      * unfold tb_key at 1. cbn [fst snd]. split.
+        -- intro H. inversion H. eauto.
+        -- intros [a' [e' [H1 [H2 H3]]]]. inversion H1; inversion H2; subst. reflexivity.
+      * apply IH.
+Qed.
+
+Lemma keys_length : forall sc levels m, length levels = length sc -> length (keys_of sc levels m) = length sc.
+Proof. intros. unfold keys_of. rewrite map_length, combine_length. lia. Qed.
+
+(* the competitors are the positions holding the best score m; position i "has the lowest level" when
+   it is a competitor and every other competitor has a strictly higher expert level *)
+Definition competitor (sc levels : list Z) (m : Z) (j : nat) (e : Z) : Prop :=
+  nth_error sc j = Some m /\ nth_error levels j = Some e.
+Definition lowest (sc levels : list Z) (m : Z) (i : nat) (e : Z) : Prop :=
+  competitor sc levels m i e /\ forall j e', j <> i -> competitor sc levels m j e' -> e < e'.
+(* the lowest level among the competitors is held by two of them *)
+Definition lowest_shared (sc levels : list Z) (m : Z) : Prop :=
+  exists i j e, i <> j /\ competitor sc levels m i e /\ competitor sc levels m j e /\
+                forall p e', competitor sc levels m p e' -> e <= e'.
+
+Section TieBreak.
+  Variables (sc levels : list Z) (m f : Z).
+  Hypothesis Hlen : length levels = length sc.
+  Hypothesis Hin : In m sc.
+  Hypothesis Hf : above f (keys_of sc levels m).
+  Let keysZ := map (emb f) (keys_of sc levels m).
+
+  Lemma level_at : forall j a, nth_error sc j = Some a -> exists e, nth_error levels j = Some e.
+  Proof.
+    intros j a H. destruct (nth_error levels j) as [e|] eqn:E; [eauto|].
+    apply nth_error_None in E. assert (j < length sc)%nat by (apply nth_error_Some; congruence). lia.
+  Qed.
+
+  Lemma nth_keysZ : forall j z, nth_error keysZ j = Some z <->
+    exists a e, nth_error sc j = Some a /\ nth_error levels j = Some e /\
+                z = if a =? m then 100 * a - e else f.
+  Proof.
+    intros j z. unfold keysZ. rewrite nth_error_map.
+    destruct (nth_error (keys_of sc levels m) j) as [o|] eqn:E; cbn.
+    - apply nth_keys in E. destruct E as [a [e [Ha [He ->]]]]. split.
+      + intro H. inversion H; subst. exists a, e. repeat split; try assumption. destruct (a =? m); reflexivity.
+      + intros [a' [e' [Ha' [He' ->]]]]. rewrite Ha in Ha'. rewrite He in He'. inversion Ha'; inversion He'; subst.
+        destruct (a' =? m); reflexivity.
+    - split; [discriminate|]. intros [a [e [Ha [He _]]]].
+      assert (nth_error (keys_of sc levels m) j = Some (if a =? m then Some (100 * a - e) else None)) as X
+        by (apply nth_keys; eauto). congruence.
+  Qed.
+
+  Lemma competitor_above : forall j e, competitor sc levels m j e -> f < 100 * m - e.
+  Proof.
+    intros j e [Hs He]. apply Hf. eapply nth_error_In. apply nth_keys. exists m, e.
+    rewrite Z.eqb_refl. eauto.
+  Qed.
+
+  Lemma a_competitor : exists p e, competitor sc levels m p e.
+  Proof.
+    apply In_nth_error in Hin. destruct Hin as [p Hp]. destruct (level_at p m Hp) as [e He]. exists p, e. split; assumption.
+  Qed.
+
+  Theorem umax_lowest : forall i, (exists k, umax keysZ i k) <-> exists e, lowest sc levels m i e.
+  Proof.
+    intros i. split.
+    - intros [k [Hi Hlt]]. apply nth_keysZ in Hi. destruct Hi as [a [e [Ha [He ->]]]].
+      destruct (Z.eqb_spec a m) as [->|Hne].
+      + exists e. split; [split; assumption|]. intros j e' Hj [Hsj Hej].
+        assert (nth_error keysZ j = Some (100 * m - e')) as Hk
+          by (apply nth_keysZ; exists m, e'; rewrite Z.eqb_refl; auto).
+        specialize (Hlt j _ Hk Hj). lia.
+      + exfalso. destruct a_competitor as [p [ep Hp]]. pose proof (competitor_above p ep Hp).
+        destruct Hp as [Hsp Hep]. assert (p <> i) by (intros ->; congruence).
+        assert (nth_error keysZ p = Some (100 * m - ep)) as Hk
+          by (apply nth_keysZ; exists m, ep; rewrite Z.eqb_refl; auto).
+        specialize (Hlt p _ Hk H0). lia.
+    - intros [e [[Hs He] Hlow]]. exists (100 * m - e). split.
+      + apply nth_keysZ. exists m, e. rewrite Z.eqb_refl. auto.
+      + intros j x Hj Hne. apply nth_keysZ in Hj. destruct Hj as [a [e' [Ha [He' ->]]]].
+        destruct (Z.eqb_spec a m) as [->|Hn].
+        * assert (e < e') by (apply (Hlow j e' Hne); split; assumption). lia.
+        * apply (competitor_above i e). split; assumption.
+  Qed.
+
+  Theorem shared_lowest : (exists k, is_max keysZ k /\ shared keysZ k) <-> lowest_shared sc levels m.
+  Proof.
+    split.
+    - intros [k [[Hk Hle] [i [j [Hij [Hi Hj]]]]]].
+      destruct a_competitor as [p [ep Hp]]. pose proof (competitor_above p ep Hp) as Hab.
+      assert (100 * m - ep <= k) as Hpk.
+      { apply Hle. eapply nth_error_In. apply nth_keysZ. destruct Hp as [A B]. exists m, ep. rewrite Z.eqb_refl. eauto. }
+      assert (forall q, nth_error keysZ q = Some k -> exists e, competitor sc levels m q e /\ k = 100 * m - e) as Hc.
+      { intros q Hq. apply nth_keysZ in Hq. destruct Hq as [a [e [Ha [He Hz]]]].
+        destruct (Z.eqb_spec a m) as [->|Hn]; [exists e; split; [split; assumption | exact Hz] | lia]. }
+      destruct (Hc i Hi) as [e [Hci Hke]]. destruct (Hc j Hj) as [e2 [Hcj Hke2]].
+      assert (e2 = e) by lia. subst e2. exists i, j, e. repeat (split; [assumption|]).
+      intros q e' [Hsq Heq].
+      assert (100 * m - e' <= k); [|lia].
+      apply Hle. eapply nth_error_In. apply nth_keysZ. exists m, e'. rewrite Z.eqb_refl. eauto.
+    - intros [i [j [e [Hij [[Hsi Hei] [[Hsj Hej] Hlow]]]]]]. exists (100 * m - e).
+      assert (forall q, competitor sc levels m q e -> nth_error keysZ q = Some (100 * m - e)) as Hq.
+      { intros q [A B]. apply nth_keysZ. exists m, e. rewrite Z.eqb_refl. auto. }
+      split.
+      + split; [eapply nth_error_In; apply (Hq i); split; assumption|].
+        intros x Hx. apply In_nth_error in Hx. destruct Hx as [q Hx]. apply nth_keysZ in Hx.
+        destruct Hx as [a [e' [Ha [He' ->]]]]. destruct (Z.eqb_spec a m) as [->|Hn].
+        * assert (e <= e') by (apply (Hlow q); split; assumption). lia.
+        * pose proof (competitor_above i e (conj Hsi Hei)). lia.
+      + exists i, j. split; [exact Hij|]. split; apply Hq; split; assumption.
+  Qed.
+End TieBreak.
 
 (* ---------- the four outcomes of decide, for any score list *)
 Section Decide.
   Variables (targets : list str) (levels sc : list Z).
 
+  Lemma decide_unfold : decide targets levels sc =
+    match zmax sc with
+    | None => Ok Unknown
+    | Some m => if m =? 0 then Ok Unknown
+                else if (1 <? zcount m sc)%nat
+                     then tiebreak targets (best_matches targets sc m) (keys_of sc levels m)
+                     else pick targets sc m false
+    end.
+  Proof. unfold decide, zmax_default0, decide_at, keys_of. destruct (zmax sc); reflexivity. Qed.
+
   Theorem decide_unknown : decide targets levels sc = Ok Unknown <-> sc = [] \/ is_max sc 0.
   Proof.
-    unfold decide, zmax_default0, decide_at. destruct (zmax sc) as [m|] eqn:E.
-    - apply zmax_spec in E. destruct (Z.eqb_spec m 0) as [->|Hne].
-      + tauto.
-      + assert (sc <> []) as Hsc by (intros ->; destruct E as [[] _]).
-        split.
-        * intro H. exfalso. destruct (1 <? zcount m sc)%nat.
-          -- destruct (zmax (map tb_key (combine sc levels))); [|discriminate].
-             destruct (1 <? zcount z (map tb_key (combine sc levels)))%nat; [discriminate|].
-             eapply pick_not_unknown; exact H.
-          -- eapply pick_not_unknown; exact H.
-        * intros [H|H]; [contradiction|]. exfalso. apply Hne. eapply is_max_unique; eauto.
-    - apply zmax_none in E. subst. simpl (0 =? 0). tauto.
+    rewrite decide_unfold. destruct (zmax sc) as [m|] eqn:E.
+    - apply zmax_spec in E. assert (sc <> []) as Hsc by (intros ->; destruct E as [[] _]).
+      destruct (Z.eqb_spec m 0) as [->|Hne]; [tauto|].
+      split.
+      + intro H. exfalso. destruct (1 <? zcount m sc)%nat.
+        * destruct (exists_floor (keys_of sc levels m)) as [f Hf]. rewrite (tiebreak_emb f) in H by exact Hf.
+          eapply tiebreakZ_not_unknown; exact H.
+        * eapply pick_not_unknown; exact H.
+      + intros [H|H]; [contradiction|]. exfalso. apply Hne. eapply is_max_unique; eauto.
+    - apply zmax_none in E. tauto.
   Qed.
 
   Theorem decide_plain : forall i t,
     decide targets levels sc = Ok (Chosen i t false) <->
     exists m, m <> 0 /\ umax sc i m /\ nth_error targets i = Some t.
   Proof.
-    intros i t. unfold decide, zmax_default0, decide_at. destruct (zmax sc) as [m|] eqn:E.
+    intros i t. rewrite decide_unfold. destruct (zmax sc) as [m|] eqn:E.
     - apply zmax_spec in E. destruct (Z.eqb_spec m 0) as [->|Hne].
       + split; [discriminate|]. intros [m [Hm [Hu _]]]. apply umax_props in Hu. destruct Hu as [Hu _].
         exfalso. apply Hm. eapply is_max_unique; eauto.
       + destruct (1 <? zcount m sc)%nat eqn:Ec.
         * apply ltb_count in Ec. split.
-          -- intro H. exfalso. destruct (zmax (map tb_key (combine sc levels))); [|discriminate].
-             destruct (1 <? zcount z (map tb_key (combine sc levels)))%nat; [discriminate|].
-             apply pick_spec in H. destruct H as [_ [_ H]]. discriminate.
+          -- intro H. exfalso. destruct (exists_floor (keys_of sc levels m)) as [f Hf].
+             rewrite (tiebreak_emb f) in H by exact Hf. apply tiebreakZ_chosen in H. destruct H as [H _]. discriminate.
           -- intros [m' [_ [Hu _]]]. apply umax_props in Hu. destruct Hu as [Hu [Hns _]].
              assert (m' = m) by (eapply is_max_unique; eauto). subst. contradiction.
         * assert (~ shared sc m) as Hns by (intro X; apply ltb_count in X; congruence).
@@ -193,102 +468,70 @@ Section Decide.
              destruct (umax_of_unique sc m E Hns) as [i' [Hi' Hu]]. rewrite H1 in Hi'. inversion Hi'; subst. exact Hu.
           -- intros [m' [_ [Hu Ht]]]. apply umax_props in Hu. destruct Hu as [Hu [_ Hz]].
              assert (m' = m) by (eapply is_max_unique; eauto). subst. auto.
-    - simpl (0 =? 0). split; [discriminate|]. intros [m [_ [[Hu _] _]]]. apply zmax_none in E. subst. destruct i; discriminate.
+    - split; [discriminate|]. intros [m [_ [[Hu _] _]]]. apply zmax_none in E. subst. destruct i; discriminate.
   Qed.
 
+  Hypothesis Hlen : length levels = length sc.
+
+  (* chosen with a warning iff the best score is shared and this position alone has the lowest
+     level among the positions holding the best score *)
   Theorem decide_warn : forall i t,
     decide targets levels sc = Ok (Chosen i t true) <->
-    exists m k, is_max sc m /\ m <> 0 /\ shared sc m /\ umax (keys_of sc levels) i k /\ nth_error targets i = Some t.
+    exists m, is_max sc m /\ m <> 0 /\ shared sc m /\ nth_error targets i = Some t /\
+              exists e, lowest sc levels m i e.
   Proof.
-    intros i t. unfold decide, zmax_default0, decide_at, keys_of. destruct (zmax sc) as [m|] eqn:E.
+    intros i t. rewrite decide_unfold. destruct (zmax sc) as [m|] eqn:E.
     - apply zmax_spec in E. destruct (Z.eqb_spec m 0) as [->|Hne].
-      + split; [discriminate|]. intros [m [k [Hm [Hz _]]]]. exfalso. apply Hz. eapply is_max_unique; eauto.
+      + split; [discriminate|]. intros [m [Hm [Hz _]]]. exfalso. apply Hz. eapply is_max_unique; eauto.
       + destruct (1 <? zcount m sc)%nat eqn:Ec.
-        * apply ltb_count in Ec. set (keys := map tb_key (combine sc levels)).
-          destruct (zmax keys) as [m2|] eqn:E2.
-          -- apply zmax_spec in E2. destruct (1 <? zcount m2 keys)%nat eqn:Ec2.
-             ++ apply ltb_count in Ec2. split; [discriminate|].
-                intros [m' [k [_ [_ [_ [Hu _]]]]]]. apply umax_props in Hu. destruct Hu as [Hu [Hns _]].
-                assert (k = m2) by (eapply is_max_unique; eauto). subst. contradiction.
-             ++ assert (~ shared keys m2) as Hns by (intro X; apply ltb_count in X; congruence).
-                rewrite pick_spec. split.
-                ** intros [H1 [H2 _]]. exists m, m2. repeat (split; [assumption|]). split; [|exact H2].
-                   destruct (umax_of_unique keys m2 E2 Hns) as [i' [Hi' Hu]]. rewrite H1 in Hi'. inversion Hi'; subst. exact Hu.
-                ** intros [m' [k [_ [_ [_ [Hu Ht]]]]]]. apply umax_props in Hu. destruct Hu as [Hu [_ Hz]].
-                   assert (k = m2) by (eapply is_max_unique; eauto). subst. auto.
-          -- split; [discriminate|]. intros [m' [k [_ [_ [_ [[Hu _] _]]]]]]. apply zmax_none in E2.
-             rewrite E2 in Hu. destruct i; discriminate.
+        * apply ltb_count in Ec. destruct (exists_floor (keys_of sc levels m)) as [f Hf].
+          rewrite (tiebreak_emb f) by exact Hf. rewrite tiebreakZ_chosen.
+          rewrite (umax_lowest sc levels m f Hlen (proj1 E) Hf i). split.
+          -- intros [_ [Ht Hl]]. exists m. auto.
+          -- intros [m' [Hm [_ [_ [Ht Hl]]]]]. assert (m' = m) by (eapply is_max_unique; eauto). subst. auto.
         * assert (~ shared sc m) as Hns by (intro X; apply ltb_count in X; congruence).
           split.
           -- intro H. apply pick_spec in H. destruct H as [_ [_ H]]. discriminate.
-          -- intros [m' [k [Hm [_ [Hs _]]]]]. assert (m' = m) by (eapply is_max_unique; eauto). subst. contradiction.
-    - simpl (0 =? 0). split; [discriminate|]. intros [m [k [[H _] _]]]. apply zmax_none in E. subst. destruct H.
+          -- intros [m' [Hm [_ [Hs _]]]]. assert (m' = m) by (eapply is_max_unique; eauto). subst. contradiction.
+    - split; [discriminate|]. intros [m [[H _] _]]. apply zmax_none in E. subst. destruct H.
   Qed.
 
   Theorem decide_ambiguous : forall c,
     decide targets levels sc = Ok (Ambiguous c) <->
-    exists m k, is_max sc m /\ m <> 0 /\ shared sc m /\
-                is_max (keys_of sc levels) k /\ shared (keys_of sc levels) k /\
-                c = best_matches targets sc m.
+    exists m, is_max sc m /\ m <> 0 /\ shared sc m /\ lowest_shared sc levels m /\
+              c = best_matches targets sc m.
   Proof.
-    intros c. unfold decide, zmax_default0, decide_at, keys_of. destruct (zmax sc) as [m|] eqn:E.
+    intros c. rewrite decide_unfold. destruct (zmax sc) as [m|] eqn:E.
     - apply zmax_spec in E. destruct (Z.eqb_spec m 0) as [->|Hne].
-      + split; [discriminate|]. intros [m [k [Hm [Hz _]]]]. exfalso. apply Hz. eapply is_max_unique; eauto.
+      + split; [discriminate|]. intros [m [Hm [Hz _]]]. exfalso. apply Hz. eapply is_max_unique; eauto.
       + destruct (1 <? zcount m sc)%nat eqn:Ec.
-        * apply ltb_count in Ec. set (keys := map tb_key (combine sc levels)).
-          destruct (zmax keys) as [m2|] eqn:E2.
-          -- apply zmax_spec in E2. destruct (1 <? zcount m2 keys)%nat eqn:Ec2.
-             ++ apply ltb_count in Ec2. split.
-                ** intro H. inversion H; subst. exists m, m2. auto 10.
-                ** intros [m' [k [Hm [_ [_ [Hk [_ ->]]]]]]].
-                   assert (m' = m) by (eapply is_max_unique; eauto). subst. reflexivity.
-             ++ assert (~ shared keys m2) as Hns by (intro X; apply ltb_count in X; congruence).
-                split.
-                ** intro H. exfalso. eapply pick_not_ambiguous; exact H.
-                ** intros [m' [k [_ [_ [_ [Hk [Hs _]]]]]]]. assert (k = m2) by (eapply is_max_unique; eauto). subst. contradiction.
-          -- split; [discriminate|]. intros [m' [k [_ [_ [_ [[Hk _] _]]]]]]. apply zmax_none in E2. rewrite E2 in Hk. destruct Hk.
+        * apply ltb_count in Ec. destruct (exists_floor (keys_of sc levels m)) as [f Hf].
+          rewrite (tiebreak_emb f) by exact Hf. rewrite tiebreakZ_ambiguous.
+          rewrite (shared_lowest sc levels m f Hlen (proj1 E) Hf). split.
+          -- intros [-> Hl]. exists m. auto.
+          -- intros [m' [Hm [_ [_ [Hl ->]]]]]. assert (m' = m) by (eapply is_max_unique; eauto). subst. auto.
         * assert (~ shared sc m) as Hns by (intro X; apply ltb_count in X; congruence).
           split.
           -- intro H. exfalso. eapply pick_not_ambiguous; exact H.
-          -- intros [m' [k [Hm [_ [Hs _]]]]]. assert (m' = m) by (eapply is_max_unique; eauto). subst. contradiction.
-    - simpl (0 =? 0). split; [discriminate|]. intros [m [k [[H _] _]]]. apply zmax_none in E. subst. destruct H.
+          -- intros [m' [Hm [_ [Hs _]]]]. assert (m' = m) by (eapply is_max_unique; eauto). subst. contradiction.
+    - split; [discriminate|]. intros [m [[H _] _]]. apply zmax_none in E. subst. destruct H.
+  Qed.
+
+  (* no crash when the lists are as process_arg builds them *)
+  Theorem decide_total : length targets = length sc -> exists d, decide targets levels sc = Ok d.
+  Proof.
+    intros Ht. rewrite decide_unfold. destruct (zmax sc) as [m|] eqn:E; [|eauto].
+    assert (sc <> []) as Hne by (intros ->; discriminate).
+    apply zmax_spec in E. destruct (m =? 0); [eauto|].
+    destruct (1 <? zcount m sc)%nat.
+    - destruct (exists_floor (keys_of sc levels m)) as [f Hf]. rewrite (tiebreak_emb f) by exact Hf.
+      apply tiebreakZ_total.
+      + intro X. apply (f_equal (@length Z)) in X. rewrite map_length, keys_length in X by exact Hlen.
+        destruct sc; [contradiction | discriminate].
+      + rewrite map_length, keys_length by exact Hlen. lia.
+    - destruct (pick_total targets sc m false) as [i [t H]]; [apply E | lia | rewrite H; eauto].
   Qed.
 End Decide.
-
-(* ---------- no crash when the lists are as process_arg builds them *)
-Lemma zindex_lt : forall m l i, zindex m l = Some i -> (i < length l)%nat.
-Proof.
-  intros m l i H. apply zindex_spec in H. destruct H as [H _]. apply nth_error_Some. congruence.
-Qed.
-
-Lemma keys_length : forall sc levels, length levels = length sc -> length (keys_of sc levels) = length sc.
-Proof. intros. unfold keys_of. rewrite map_length, combine_length. lia. Qed.
-
-Lemma pick_total : forall targets l m w, In m l -> length l = length targets ->
-  exists i t, pick targets l m w = Ok (Chosen i t w).
-Proof.
-  intros targets l m w Hin Hl. unfold pick. destruct (zindex_in m l Hin) as [i Hi]. rewrite Hi.
-  apply zindex_lt in Hi. destruct (nth_error targets i) as [t|] eqn:E; [eauto|].
-  apply nth_error_None in E. lia.
-Qed.
-
-Theorem decide_total : forall targets levels sc,
-  length targets = length sc -> length levels = length sc ->
-  exists d, decide targets levels sc = Ok d.
-Proof.
-  intros targets levels sc Ht Hl. unfold decide, zmax_default0, decide_at.
-  destruct (zmax sc) as [m|] eqn:E; [|simpl (0 =? 0); eauto].
-  assert (sc <> []) as Hne by (intros ->; discriminate).
-  apply zmax_spec in E. destruct (m =? 0); [eauto|].
-  destruct (1 <? zcount m sc)%nat.
-  - fold (keys_of sc levels). pose proof (keys_length sc levels Hl) as Hk.
-    destruct (zmax (keys_of sc levels)) as [m2|] eqn:E2.
-    + destruct (1 <? zcount m2 (keys_of sc levels))%nat; [eauto|].
-      apply zmax_spec in E2. destruct (pick_total targets (keys_of sc levels) m2 true) as [i [t H]];
-        [apply E2 | lia | rewrite H; eauto].
-    + apply zmax_none in E2. rewrite E2 in Hk. cbn in Hk. destruct sc; [contradiction | discriminate].
-  - destruct (pick_total targets sc m false) as [i [t H]]; [apply E | lia | rewrite H; eauto].
-Qed.
 
 (* ---------- the Best matches list *)
 Lemma best_matches_filter : forall (f : str -> Z) targets m,
@@ -306,69 +549,6 @@ Proof.
   { induction l as [|t r IH]; cbn; [reflexivity|]. destruct (f t =? m); cbn; rewrite IH; reflexivity. }
   rewrite <- X. exact H.
 Qed.
-
-(* ---------- keys = 100*score - level, position by position *)
-Lemma nth_keys : forall sc levels j k,
-  nth_error (keys_of sc levels) j = Some k <->
-  exists a e, nth_error sc j = Some a /\ nth_error levels j = Some e /\ k = 100 * a - e.
-Proof.
-  unfold keys_of. induction sc as [|a sc IH]; intros levels j k.
-  - cbn. split; [destruct j; discriminate | intros [a [e [H _]]]; destruct j; discriminate].
-  - destruct levels as [|e levels].
-    + cbn. split; [destruct j; discriminate | intros [a' [e' [_ [H _]]]]; destruct j; discriminate].
-    + destruct j as [|j]; cbn.
-      * unfold tb_key at 1. cbn. split.
-        -- intro H. inversion H. eauto.
-        -- intros [a' [e' [H1 [H2 H3]]]]. inversion H1; inversion H2; subst. reflexivity.
-      * apply IH.
-Qed.
-
-(* When the expert levels differ by less than 100 (in particular all within 0..99), the tie-break
-   picks among the best matches only, and picks the one with the strictly lowest level. *)
-Section TieBreak.
-  Variables (sc levels : list Z) (m : Z).
-  Hypothesis Hlen : length levels = length sc.
-  Hypothesis Hmax : is_max sc m.
-  Hypothesis Hspread : forall e e', In e levels -> In e' levels -> e - e' < 100.
-
-  Lemma level_at : forall j a, nth_error sc j = Some a -> exists e, nth_error levels j = Some e.
-  Proof.
-    intros j a H. destruct (nth_error levels j) as [e|] eqn:E; [eauto|].
-    apply nth_error_None in E. assert (j < length sc)%nat by (apply nth_error_Some; congruence). lia.
-  Qed.
-
-  Theorem tiebreak_lowest : forall i k, umax (keys_of sc levels) i k ->
-    nth_error sc i = Some m /\
-    exists e, nth_error levels i = Some e /\ k = 100 * m - e /\
-      forall j e', j <> i -> nth_error sc j = Some m -> nth_error levels j = Some e' -> e < e'.
-  Proof.
-    intros i k [Hi Hlt]. apply nth_keys in Hi. destruct Hi as [a [e [Ha [He ->]]]].
-    destruct Hmax as [Hin Hle]. assert (a <= m) by (apply Hle; eapply nth_error_In; eauto).
-    assert (a = m) as ->.
-    { destruct (Z.eq_dec a m) as [|Hne]; [assumption|]. exfalso.
-      apply In_nth_error in Hin. destruct Hin as [p Hp]. destruct (level_at p m Hp) as [ep Hep].
-      assert (p <> i) by (intros ->; congruence).
-      assert (nth_error (keys_of sc levels) p = Some (100 * m - ep)) as Hk by (apply nth_keys; eauto).
-      specialize (Hlt p _ Hk H0).
-      assert (ep - e < 100) by (apply Hspread; eapply nth_error_In; eauto). lia. }
-    split; [exact Ha|]. exists e. split; [exact He|]. split; [reflexivity|].
-    intros j e' Hj Hsj Hej.
-    assert (nth_error (keys_of sc levels) j = Some (100 * m - e')) as Hk by (apply nth_keys; eauto).
-    specialize (Hlt j _ Hk Hj). lia.
-  Qed.
-
-  Theorem lowest_tiebreak : forall i e, nth_error sc i = Some m -> nth_error levels i = Some e ->
-    (forall j e', j <> i -> nth_error sc j = Some m -> nth_error levels j = Some e' -> e < e') ->
-    umax (keys_of sc levels) i (100 * m - e).
-  Proof.
-    intros i e Hi He Hlow. split; [apply nth_keys; eauto|].
-    intros j x Hj Hne. apply nth_keys in Hj. destruct Hj as [a [e' [Ha [He' ->]]]].
-    destruct Hmax as [_ Hle]. assert (a <= m) by (apply Hle; eapply nth_error_In; eauto).
-    destruct (Z.eq_dec a m) as [->|Hn].
-    - specialize (Hlow j e' Hne Ha He'). lia.
-    - assert (e - e' < 100) by (apply Hspread; eapply nth_error_In; eauto). lia.
-  Qed.
-End TieBreak.
 
 (* ---------- decide_for: the score list is map (get_path_score home source) targets *)
 Section DecideFor.
@@ -403,8 +583,8 @@ Section DecideFor.
     exists d, decide_for home targets levels s = Ok d.
   Proof.
     intros Hl. unfold decide_for. apply decide_total.
-    - rewrite map_length. reflexivity.
     - rewrite map_length. exact Hl.
+    - rewrite map_length. reflexivity.
   Qed.
 
   (* a name equal to a full path of a duplicate-free master always addresses that parameter *)
@@ -494,38 +674,19 @@ Proof.
     split; [apply scores_nth; eauto|]. intros j x Hj Hne. apply scores_nth in Hj. destruct Hj as [t' [Ht' ->]]. eauto.
 Qed.
 
+Lemma competitor_scores : forall home s targets levels m j e,
+  competitor (scores home s targets) levels m j e <->
+  exists t, nth_error targets j = Some t /\ get_path_score home s t = m /\ nth_error levels j = Some e.
+Proof.
+  intros. unfold competitor. rewrite scores_nth. split.
+  - intros [[t [Ht Hm]] He]. exists t. auto.
+  - intros [t [Ht [Hm He]]]. split; [exists t; auto | exact He].
+Qed.
+
+(* chosen with a warning <-> the best score is shared and this target alone has the lowest expert
+   level among the targets with the best score *)
 Theorem decide_for_warn : forall home targets levels s i t,
-  decide_for home targets levels s = Ok (Chosen i t true) <->
-  nth_error targets i = Some t /\
-  (exists m, is_max (scores home s targets) m /\ 0 < m /\ shared (scores home s targets) m) /\
-  exists k, umax (keys_of (scores home s targets) levels) i k.
-Proof.
-  intros. unfold decide_for. rewrite decide_warn. fold (scores home s targets). split.
-  - intros [m [k [H1 [H2 [H3 [H4 H5]]]]]]. split; [exact H5|]. split; [|eauto].
-    exists m. pose proof (max_score_nonneg _ _ _ _ H1). repeat split; try assumption; try apply H1. lia.
-  - intros [H5 [[m [H1 [H2 H3]]] [k H4]]]. exists m, k. repeat split; try assumption; try apply H1; try apply H4. lia.
-Qed.
-
-Theorem decide_for_ambiguous : forall home targets levels s c,
-  decide_for home targets levels s = Ok (Ambiguous c) <->
-  exists m, is_max (scores home s targets) m /\ 0 < m /\ shared (scores home s targets) m /\
-            (exists k, is_max (keys_of (scores home s targets) levels) k /\
-                       shared (keys_of (scores home s targets) levels) k) /\
-            c = filter (fun t => get_path_score home s t =? m) targets /\ (1 < length c)%nat.
-Proof.
-  intros. unfold decide_for. rewrite decide_ambiguous. fold (scores home s targets). split.
-  - intros [m [k [H1 [H2 [H3 [H4 [H5 ->]]]]]]]. exists m. pose proof (max_score_nonneg _ _ _ _ H1).
-    split; [exact H1|]. split; [lia|]. split; [exact H3|]. split; [eauto|].
-    unfold scores. rewrite best_matches_filter. split; [reflexivity|]. apply shared_map_filter. exact H3.
-  - intros [m [H1 [H2 [H3 [[k [H4 H5]] [-> _]]]]]]. exists m, k. split; [exact H1|]. split; [lia|].
-    split; [exact H3|]. split; [exact H4|]. split; [exact H5|]. unfold scores. rewrite best_matches_filter. reflexivity.
-Qed.
-
-(* with expert levels less than 100 apart: chosen with a warning <-> the best score is shared and
-   this target is the best match with the strictly lowest expert level *)
-Theorem decide_for_warn_lowest : forall home targets levels s i t,
   length levels = length targets ->
-  (forall e e', In e levels -> In e' levels -> e - e' < 100) ->
   (decide_for home targets levels s = Ok (Chosen i t true) <->
    nth_error targets i = Some t /\
    exists m e, is_max (scores home s targets) m /\ 0 < m /\ shared (scores home s targets) m /\
@@ -533,18 +694,51 @@ Theorem decide_for_warn_lowest : forall home targets levels s i t,
      forall j t' e', j <> i -> nth_error targets j = Some t' -> get_path_score home s t' = m ->
                      nth_error levels j = Some e' -> e < e').
 Proof.
-  intros home targets levels s i t Hlen Hsp. rewrite decide_for_warn.
+  intros home targets levels s i t Hlen.
   assert (Hl : length levels = length (scores home s targets)) by (unfold scores; rewrite map_length; exact Hlen).
-  split.
-  - intros [Ht [[m [H1 [H2 H3]]] [k Hu]]]. split; [exact Ht|].
-    destruct (tiebreak_lowest _ _ m Hl H1 Hsp i k Hu) as [Hi [e [He [_ Hlow]]]].
-    exists m, e. repeat (split; [assumption|]).
-    apply scores_nth in Hi. destruct Hi as [t0 [Ht0 ->]]. rewrite Ht in Ht0. inversion Ht0; subst t0.
-    split; [reflexivity|]. split; [exact He|].
-    intros j t' e' Hne Hj Hs He'. apply (Hlow j e' Hne); [apply scores_nth; eauto | exact He'].
-  - intros [Ht [m [e [H1 [H2 [H3 [H4 [He Hlow]]]]]]]]. split; [exact Ht|]. split; [eauto|].
-    exists (100 * m - e). apply (lowest_tiebreak _ _ m Hl H1 Hsp).
-    + apply scores_nth. eauto.
-    + exact He.
-    + intros j e' Hne Hj He'. apply scores_nth in Hj. destruct Hj as [t' [Ht' Hs]]. eapply Hlow; eauto.
+  unfold decide_for. fold (scores home s targets). rewrite (decide_warn _ _ _ Hl). split.
+  - intros [m [H1 [H2 [H3 [Ht [e [Hc Hlow]]]]]]]. split; [exact Ht|]. exists m, e.
+    pose proof (max_score_nonneg _ _ _ _ H1). apply competitor_scores in Hc. destruct Hc as [t0 [Ht0 [Hm He]]].
+    rewrite Ht in Ht0. inversion Ht0; subst t0.
+    split; [exact H1|]. split; [lia|]. split; [exact H3|]. split; [exact Hm|]. split; [exact He|].
+    intros j t' e' Hne Hj Hs He'. apply (Hlow j e' Hne). apply competitor_scores. eauto.
+  - intros [Ht [m [e [H1 [H2 [H3 [Hm [He Hlow]]]]]]]]. exists m. split; [exact H1|]. split; [lia|]. split; [exact H3|].
+    split; [exact Ht|]. exists e. split.
+    + apply competitor_scores. eauto.
+    + intros j e' Hne Hc. apply competitor_scores in Hc. destruct Hc as [t' [Hj [Hs He']]]. eapply Hlow; eauto.
+Qed.
+
+(* refused as ambiguous <-> the best score is shared and so is the lowest level among the targets
+   holding it; the list is exactly the targets with the best score, in target order *)
+Theorem decide_for_ambiguous : forall home targets levels s c,
+  length levels = length targets ->
+  (decide_for home targets levels s = Ok (Ambiguous c) <->
+   exists m, is_max (scores home s targets) m /\ 0 < m /\ shared (scores home s targets) m /\
+             lowest_shared (scores home s targets) levels m /\
+             c = filter (fun t => get_path_score home s t =? m) targets /\ (1 < length c)%nat).
+Proof.
+  intros home targets levels s c Hlen.
+  assert (Hl : length levels = length (scores home s targets)) by (unfold scores; rewrite map_length; exact Hlen).
+  unfold decide_for. fold (scores home s targets). rewrite (decide_ambiguous _ _ _ Hl). split.
+  - intros [m [H1 [H2 [H3 [H4 ->]]]]]. exists m. pose proof (max_score_nonneg _ _ _ _ H1).
+    split; [exact H1|]. split; [lia|]. split; [exact H3|]. split; [exact H4|].
+    unfold scores. rewrite best_matches_filter. split; [reflexivity|]. apply shared_map_filter. exact H3.
+  - intros [m [H1 [H2 [H3 [H4 [-> _]]]]]]. exists m. split; [exact H1|]. split; [lia|].
+    split; [exact H3|]. split; [exact H4|]. unfold scores. rewrite best_matches_filter. reflexivity.
+Qed.
+
+(* the tie-break never lets a target outside the best matches win *)
+Corollary chosen_is_best : forall home targets levels s i t w,
+  length levels = length targets ->
+  decide_for home targets levels s = Ok (Chosen i t w) ->
+  nth_error targets i = Some t /\ 0 < get_path_score home s t /\
+  forall t', In t' targets -> get_path_score home s t' <= get_path_score home s t.
+Proof.
+  intros home targets levels s i t w Hlen H. destruct w.
+  - apply (decide_for_warn _ _ _ _ _ _ Hlen) in H. destruct H as [Ht [m [e [[_ Hle] [Hpos [_ [Hm _]]]]]]].
+    split; [exact Ht|]. split; [lia|]. intros t' Ht'. rewrite Hm. apply Hle. unfold scores. apply in_map. exact Ht'.
+  - apply decide_for_plain in H. destruct H as [Ht [Hpos Hlt]]. split; [exact Ht|]. split; [exact Hpos|].
+    intros t' Ht'. apply In_nth_error in Ht'. destruct Ht' as [j Hj].
+    destruct (Nat.eq_dec j i) as [->|Hne]; [rewrite Ht in Hj; inversion Hj; lia|].
+    specialize (Hlt j t' Hj Hne). lia.
 Qed.
